@@ -86,6 +86,7 @@ fn dispatch(cmd: &str, opts: &Opts) -> i32 {
         "C09" => props::c09::run(opts),
         "C10" => props::c10::run(opts),
         "C12" => props::c12::run(opts),
+        "C13" => props::c13::run(opts),
         "C14" => props::c14::run(opts),
         _ => {
             eprintln!("unknown command {cmd}");
